@@ -238,6 +238,7 @@ class Executor:
             self.pos = 0
             self.trace = []
             self.pc = []
+            self.overapprox = []
             self.pc_tags = []
             self.pending = []
             self.used_names = set()
@@ -381,6 +382,7 @@ class Executor:
                         tags=[self.pc_tags[i] for i in sel] + ["input" for _ in (by or [])], uses=uses)
         ob.lemmas = [n for n, _ in (by or [])]
         ob.prop = prop
+        ob.overapprox = list(getattr(self, "overapprox", []))
         self.obligations.append(ob)
         if keep:
             self.pc.append(goal)
@@ -823,6 +825,7 @@ class Executor:
                 from . import prelude
                 root.term = self.S.const("ndarray.store", prelude.U)
                 self.dropped.add("store into a multi-dimensional numpy array (content opaque, array havoced)")
+                self.overapprox.append("n-d array at L%d is an unknown value after the store" % t.lineno)
             else:
                 raise OutOfSubset("subscript store on %r" % (base,), t)
         else:
@@ -966,6 +969,7 @@ class Executor:
             return env[e.id]
         if e.id in getattr(self.contract, "slice_out", ()):
             from . import prelude
+            self.overapprox.append("sliced-away name %s read as an unknown value" % e.id)
             return Opaque(self.S.const("sliced." + e.id, prelude.U))      # a sliced-away name: an unknown python value
         if e.id in self.module_globals:
             return self.module_globals[e.id]
@@ -1347,6 +1351,8 @@ class Executor:
             n = z3.simplify(V.to_z3(it.hi) - V.to_z3(it.lo))
             n = z3.If(n >= 0, n, z3.IntVal(0))
             self.assumed.append("comprehension at L%d over a symbolic range: exact length, unconstrained elements" % e.lineno)
+            # OVER-approximation: a counter-model found after this point may be spurious (never reported as a refutation)
+            self.overapprox.append("elements of the comprehension at L%d are unconstrained" % e.lineno)
             return Seq("list", None, z3.simplify(n), self.S.array("comp", z3.IntSort(), z3.RealSort()))
         sym = self.symbolic_comprehension(e, g, it, env)
         if sym is not None:
